@@ -277,7 +277,13 @@ where
                 "sig" => {
                     let mut shares: Vec<SignatureShare<C>> = vec![];
                     for (id, src, ok, sch) in entries.iter() {
-                        let s = sh[*src - 1].sign(scheme_of(sch), &msg).expect("partial sign");
+                        let s = if sch == "Aug" {
+                            // the list's own scheme, relabelled (partial signing refuses message augmentation)
+                            let base = entries.iter().map(|e| e.3.as_str()).find(|x| *x != "Aug").unwrap_or("Basic");
+                            SignatureShare::<C>::MessageAugmentation(*sh[*src - 1].sign(scheme_of(base), &msg).expect("partial sign").as_raw_value())
+                        } else {
+                            sh[*src - 1].sign(scheme_of(sch), &msg).expect("partial sign")
+                        };
                         let mut b = Vec::<u8>::from(&s);
                         b[1] = *id;
                         if !*ok {
